@@ -15,7 +15,8 @@
 
 #define MT_MAXTHR	16
 
-extern const char *mt_schedule;		/* schedule string (chars 0-9a-f), may be NULL */
+extern const char *mt_schedule;
+extern int mt_fork_fail_at;	/* scenario option Xforkfail=<k>: the k-th fork() fails with EAGAIN */		/* schedule string (chars 0-9a-f), may be NULL */
 extern int mt_active;			/* baton scheduling in force */
 extern int mt_log_idle;			/* log "Iq <deadline>" whenever every thread is blocked and virtual time has to pass */
 
